@@ -282,6 +282,10 @@ class DepSet(boolean.AndRestriction, caching=False):
     def __ne__(self, other):
         return not self.__eq__(other)
 
+    def __hash__(self):
+        # equality ignores order and repetition of the members, so must the hash
+        return hash(frozenset(self.restrictions))
+
     def __iter__(self):
         return iter(self.restrictions)
 
